@@ -132,3 +132,25 @@ Definition read_icc_with (junk : Z) (ms : list saved) : icc_result :=
            end
   end.
 Definition read_icc (ms : list saved) : icc_result := read_icc_with 0 ms.
+
+(* The same function with the second pass replaced by its closed form (payloads looked up by
+   sequence number and concatenated).  proofs/IccFast.v proves read_icc_with junk ms = read_icc_fast ms
+   for every marker list; the extracted model uses it on profiles of more than 30 segments, where
+   the list-splicing second pass above costs segments x length operations. *)
+Definition icc_pick (ms : list saved) (k : Z) : list Z :=
+  match find (fun m => marker_is_icc m && (icc_seq m =? k)) ms with
+  | Some m => icc_payload m
+  | None => []
+  end.
+Definition read_icc_fast (ms : list saved) : icc_result :=
+  match pass1 ms 0 (fun _ => None) with
+  | None => IccBogus
+  | Some (num, tbl) =>
+      if num =? 0 then IccAbsent
+      else match icc_offsets (zrange 1 (Z.to_nat num)) tbl 0 (fun _ => 0) with
+           | None => IccBogus
+           | Some (total, _) =>
+               if total =? 0 then IccBogus
+               else IccOk (concat (map (icc_pick ms) (zrange 1 (Z.to_nat num))))
+           end
+  end.
